@@ -21,3 +21,5 @@ open HmcVerif.C03
 #print axioms factor_is_mass
 #print axioms reject_restores_last_accept
 #print axioms reject_restores_initial
+#print axioms inv_history_queued
+#print axioms queue_empty_after_accept_or_reject
